@@ -25,7 +25,7 @@ import (
 
 func init() {
 	register(&Check{ID: "C01", Level: "exploration",
-		Rule: "(a) mutated / truncated / random byte strings through the decoder, re-encoder, name scanner and TCP frame reader in child processes under the race detector and pool sanitizer; (b) hostile datagrams, lying TCP/DoT/DoQ frames in random segments and hostile DoH requests on all 8 listeners of the real binary, each followed by a valid probe; (c) hostile upstream replies (mutated, truncated, length-lying, HTTP-level) on 6 upstream transports followed by a valid query; " +
+		Rule: "(a) mutated / truncated / random byte strings through the decoder, re-encoder, name scanner and TCP frame reader in child processes under the race detector and pool sanitizer; (b) hostile datagrams, lying TCP/DoT/DoQ frames in random segments and hostile DoH requests on all 8 listeners of the real binary, each followed by a valid probe, and the same against a proxy whose client limiter has refused the sender (must survive and serve other subnets); (c) hostile upstream replies (mutated, truncated, length-lying, HTTP-level) on 6 upstream transports followed by a valid query; " +
 			"one evaluation = one hostile input; distinct non-trivial = distinct inputs by content hash (decoder) and distinct (listener or upstream, mutation kind) cells whose follow-up probe was answered",
 		Run: func(c *Ctx) {
 			c01Decoder(c)
@@ -36,7 +36,8 @@ func init() {
 				return
 			}
 			var wg sync.WaitGroup
-			wg.Add(2)
+			wg.Add(3)
+			go func() { defer wg.Done(); c01ListenersLimited(c) }()
 			go func() { defer wg.Done(); c01Listeners(c) }()
 			go func() { defer wg.Done(); c01UpstreamReplies(c) }()
 			wg.Wait()
@@ -227,6 +228,64 @@ func c01Listeners(c *Ctx) {
 	}
 	c.Ev.Count("listener_race_reports_mosproxy", int64(countMosRaces(res)))
 	c.Ev.Sample(map[string]any{"part": "listeners", "inputs_per_listener": n, "kinds": "truncate, random, bitflip, counts, label-length, pointer-self/cycle/wild/chain, reserved-label, long-name, short-header, rdlength, trailing-garbage"})
+}
+
+// c01ListenersLimited: the same hostile inputs against a proxy with a tiny client limiter, sent by
+// a client that is over its budget: the refusal path sees undecodable input too. Responses are not
+// judged here (REFUSED / 503 / closed connections are all fine); the proxy must survive and serve
+// a client of another subnet afterwards.
+func c01ListenersLimited(c *Ctx) {
+	b, err := NewBed(c, "limited", BedOpts{Upstreams: []string{"pipe"}, Limiter: "  client:\n    limit: 1\n    burst: 8\n"})
+	if err != nil {
+		c.startFailure(err, "c01-limited")
+		return
+	}
+	n := c.N(60, 800)
+	var wg sync.WaitGroup
+	for _, listener := range allListeners {
+		wg.Add(1)
+		go func(listener string) {
+			defer wg.Done()
+			// use the budget up with ordinary queries first
+			for k := 0; k < 12; k++ {
+				b.Exchange(listener, mkQuery(uint16(k), fmt.Sprintf("ok-lim%d%s.pipe.test.", k, listener), dns.TypeA, dns.ClassINET, false), xOpts{Timeout: 2 * time.Second})
+			}
+			parallelFor(n, 3, func() bool { return !b.Proxy.Alive() }, func(i int) {
+				r := gen.New(c.Seed, "c01lim/"+listener, i)
+				seedQ := mkQuery(uint16(r.Intn(65536)), fmt.Sprintf("ok-lh%d.pipe.test.", i), dns.TypeA, dns.ClassINET, r.Bool())
+				h, kind := c01Hostile(r, seedQ)
+				c.Ev.Eval(1)
+				c01SendHostile(b, r, listener, h, kind)
+				c.Ev.Distinct("limited-listener", listener, kind)
+				c.Ev.Count("hostile_over_limit_"+listener, 1)
+			})
+		}(listener)
+	}
+	wg.Wait()
+	probeErr := ""
+	if b.Proxy.Alive() {
+		for _, l := range []string{"udp", "tcp"} {
+			ok := false
+			for k := 0; k < 3 && !ok; k++ {
+				x := b.Exchange(l, mkQuery(uint16(900+k), fmt.Sprintf("ok-after-lim%d%s.pipe.test.", k, l), dns.TypeA, dns.ClassINET, false), xOpts{LocalIP: fmt.Sprintf("127.77.%d.1", k+1), Timeout: 5 * time.Second})
+				m := new(dns.Msg)
+				ok = x.Err == nil && m.Unpack(x.Resp) == nil && m.Rcode == dns.RcodeSuccess
+			}
+			if !ok {
+				probeErr = l
+			}
+		}
+	}
+	alive := b.Proxy.Alive()
+	res := b.Stop()
+	switch {
+	case !alive || res.Panic != "" && res.DiedBeforeStop:
+		c.Violation("listener:proxy-crash:over-limit", "the proxy (client limiter configured, client over its budget) crashed while receiving hostile client input: "+res.Panic, map[string]any{"panic": res.Panic})
+	case probeErr != "":
+		c.Violation("listener:"+probeErr+":wedged:over-limit", "after hostile input from a client over its rate limit, a client of another subnet is not served on "+probeErr, map[string]any{"listener": probeErr})
+	default:
+		c.Ev.Count("limited_bed_survived", 1)
+	}
 }
 
 // returns "" or "<class>: text"
